@@ -1140,19 +1140,21 @@ class BeliefPropagation(Inference):
                 self.__init__(orig_model)
 
         # Step 3: Do network pruning.
-        if isinstance(self.model, BayesianNetwork):
-            self.model, evidence = self._prune_bayesian_model(variables, evidence)
-        self._initialize_structures()
+        try:
+            if isinstance(self.model, BayesianNetwork):
+                self.model, evidence = self._prune_bayesian_model(variables, evidence)
+            self._initialize_structures()
 
-        # Step 4: Run inference.
-        result = self._query(
-            variables=variables,
-            operation="marginalize",
-            evidence=evidence,
-            joint=joint,
-            show_progress=show_progress,
-        )
-        self.__init__(orig_model)
+            # Step 4: Run inference.
+            result = self._query(
+                variables=variables,
+                operation="marginalize",
+                evidence=evidence,
+                joint=joint,
+                show_progress=show_progress,
+            )
+        finally:
+            self.__init__(orig_model)
 
         if joint:
             return result.normalize(inplace=False)
@@ -1242,19 +1244,20 @@ class BeliefPropagation(Inference):
             finally:
                 self.__init__(orig_model)
 
-        if isinstance(self.model, BayesianNetwork):
-            self.model, evidence = self._prune_bayesian_model(variables, evidence)
-        self._initialize_structures()
+        try:
+            if isinstance(self.model, BayesianNetwork):
+                self.model, evidence = self._prune_bayesian_model(variables, evidence)
+            self._initialize_structures()
 
-        final_distribution = self._query(
-            variables=variables,
-            operation="marginalize",
-            evidence=evidence,
-            joint=True,
-            show_progress=show_progress,
-        )
-
-        self.__init__(orig_model)
+            final_distribution = self._query(
+                variables=variables,
+                operation="marginalize",
+                evidence=evidence,
+                joint=True,
+                show_progress=show_progress,
+            )
+        finally:
+            self.__init__(orig_model)
 
         # To handle the case when no argument is passed then
         # _variable_elimination returns a dict.
